@@ -289,3 +289,11 @@ def holds_lock_sym(eng, path):
                 continue
             alts.append(z3.And(owns.t, z3.Not(closed.t), to_val(eng, fn) == pt))
     return VBool(z3.Or(alts) if alts else z3.BoolVal(False))
+
+
+@spec("upred", None, "application of an uninterpreted predicate named by the first argument")
+def upred_sym(eng, name, *args):
+    from .models import to_val
+    from .values import Val
+    f = z3.Function("up_" + name.s, *([Val] * len(args) + [z3.BoolSort()]))
+    return VBool(f(*[to_val(eng, a) for a in args]))
